@@ -2,7 +2,1139 @@
 
 package main
 
-import "github.com/wader/fq/internal/verifharness/hlib"
+// Semantic differential for C11 (harness-decided, no Lean oracle):
+//
+//	sem ev <hexprog> <hexinput>      fq evaluates P directly (interp.Eval: gojq.Parse(P), no rewrite) vs through
+//	                                 eval($p) = parse, rewrite with {} options, print, parse again, evaluate (eval.jq:95-116)
+//	sem cli <n|f|s> <hexprog>        the gojq library evaluates P (reference main loop of jq: null input / one evaluation
+//	                                 per input sharing the input iterator / slurp) vs fq's command line path
+//	                                 (_main -> _cli_eval -> eval with input/output/catch queries) on virtual JSON files
+//	sem repl <hexline>,<hexline>...  reference evaluation of every line on every REPL input vs fq -i with scripted
+//	                                 readline (_repl_eval: `.[] | try (P) catch _repl_on_expr_error | _repl_display`),
+//	                                 including `EXPR | slurp("v")` followed by `$v`
+import (
+	"bytes"
+	"context"
+	"encoding/json"
+	"fmt"
+	"strings"
+	"time"
 
-func (rn *runner) semAll(r *hlib.Rand, nEv, nCli, nRepl int) {}
-func (rn *runner) semReplay(f []string, line string)        {}
+	"github.com/wader/fq/internal/verifharness/hlib"
+	"github.com/wader/fq/pkg/interp"
+	"github.com/wader/gojq"
+)
+
+// ---------------------------------------------------------------- outcomes
+
+type outcome struct {
+	outs []string // canonical JSON of every output
+	err  string   // "" = no error; else error descriptor
+}
+
+func (o outcome) String() string {
+	s := "[" + strings.Join(o.outs, ",") + "]"
+	if o.err != "" {
+		s += " !" + o.err
+	}
+	return s
+}
+
+func canonValue(v any) string {
+	// round trip through encoding/json so that int/float64/big.Int print alike on both sides
+	b, err := gojq.Marshal(v)
+	if err != nil {
+		return "unmarshalable:" + err.Error()
+	}
+	var x any
+	d := json.NewDecoder(bytes.NewReader(b))
+	d.UseNumber()
+	if err := d.Decode(&x); err != nil {
+		return "undecodable:" + string(b)
+	}
+	return jsonText(canonNumbers(x))
+}
+
+func canonNumbers(v any) any {
+	switch v := v.(type) {
+	case map[string]any:
+		for k, e := range v {
+			v[k] = canonNumbers(e)
+		}
+		return v
+	case []any:
+		for i, e := range v {
+			v[i] = canonNumbers(e)
+		}
+		return v
+	case json.Number:
+		if f, err := v.Float64(); err == nil {
+			return f
+		}
+		return v.String()
+	default:
+		return v
+	}
+}
+
+// error descriptor: compile errors by kind and message (positions differ by construction: the rewritten
+// text is not the user's text), value errors by value, others by message
+func errDesc(v any) string {
+	if m, ok := v.(map[string]any); ok {
+		if w, ok := m["what"].(string); ok {
+			if e, ok := m["error"].(string); ok {
+				return "compile:" + w + ":" + e
+			}
+		}
+	}
+	return "value:" + canonValue(v)
+}
+
+func goErrDesc(err error) string {
+	type valuer interface{ Value() any }
+	if ve, ok := err.(valuer); ok {
+		return errDesc(ve.Value())
+	}
+	return "value:" + canonValue(err.Error())
+}
+
+// ---------------------------------------------------------------- sem ev
+
+func fqDirect(prog string, input any) outcome {
+	var oc outcome
+	msg, panicked := hlib.Catch(func() string {
+		it, err := shared().Eval(context.Background(), input, prog, interp.EvalOpts{})
+		if err != nil {
+			oc.err = goErrDesc(err)
+			return ""
+		}
+		for n := 0; ; n++ {
+			v, ok := it.Next()
+			if !ok {
+				break
+			}
+			if e, ok := v.(error); ok {
+				oc.err = goErrDesc(e)
+				break
+			}
+			oc.outs = append(oc.outs, canonValue(v))
+			if n > 2000 {
+				oc.err = "too-many-outputs"
+				break
+			}
+		}
+		return ""
+	})
+	if panicked {
+		oc.err = "panic:" + msg
+	}
+	return oc
+}
+
+const evExpr = `map(. as $c | $c.i | [limit(2003; try (eval($c.p) | {v: .}) catch {e: .})])`
+
+func fqThroughEval(progs []string, inputs []any) []outcome {
+	in := make([]any, len(progs))
+	for i := range progs {
+		in[i] = map[string]any{"p": progs[i], "i": inputs[i]}
+	}
+	res := evalEach(evExpr, in)
+	out := make([]outcome, len(progs))
+	for i, r := range res {
+		a, ok := r.([]any)
+		if !ok {
+			out[i].err = "harness:" + jsonText(r)
+			continue
+		}
+		for _, e := range a {
+			m, _ := e.(map[string]any)
+			if ev, isErr := m["e"]; isErr {
+				out[i].err = errDesc(ev)
+			} else {
+				out[i].outs = append(out[i].outs, canonValue(m["v"]))
+			}
+		}
+		if len(out[i].outs) > 2001 {
+			out[i].outs = out[i].outs[:2002]
+			out[i].err = "too-many-outputs"
+		}
+	}
+	return out
+}
+
+type evCase struct {
+	prog  string
+	input string // JSON text
+}
+
+func (rn *runner) semEv(cs []evCase) {
+	progs := make([]string, len(cs))
+	inputs := make([]any, len(cs))
+	for i, c := range cs {
+		progs[i] = c.prog
+		var v any
+		if err := json.Unmarshal([]byte(c.input), &v); err != nil {
+			panic(err)
+		}
+		inputs[i] = v
+	}
+	through := fqThroughEval(progs, inputs)
+	for i, c := range cs {
+		var v any
+		_ = json.Unmarshal([]byte(c.input), &v)
+		direct := fqDirect(c.prog, v)
+		op := "sem ev " + hx(c.prog) + " " + hx(c.input)
+		rn.o.N++
+		rn.o.Stat("sem_ev", 1)
+		if direct.String() == through[i].String() {
+			rn.o.Verdict("OK", op)
+		} else {
+			rn.o.Verdict("PROPFAIL", op+" :: program "+c.prog+" on "+c.input+": direct "+direct.String()+" but through eval "+through[i].String())
+		}
+		rn.semAccount("ev", c.prog, direct)
+	}
+}
+
+func (rn *runner) semAccount(kind, prog string, ref outcome) {
+	switch {
+	case strings.HasPrefix(ref.err, "compile:"):
+		rn.o.Stat("sem_"+kind+"_compile_error", 1)
+	case ref.err != "":
+		rn.o.Stat("sem_"+kind+"_runtime_error", 1)
+		if len(ref.outs) > 0 {
+			rn.o.Class("sem:" + kind + ":" + prog)
+		}
+	case len(ref.outs) == 0:
+		rn.o.Stat("sem_"+kind+"_empty", 1)
+	default:
+		rn.o.Stat("sem_"+kind+"_values", 1)
+		rn.o.Class("sem:" + kind + ":" + prog)
+	}
+}
+
+// ---------------------------------------------------------------- reference engine (gojq library)
+
+var cliFiles = []struct{ name, data string }{
+	{"a.json", `{"a":1,"b":[1,2,3],"c":"x"}`},
+	{"b.json", `[3,{"a":2},"s",null]`},
+	{"c.json", `7`},
+}
+
+var cliArgNames = []string{"$opts", "$q"}
+var cliArgValues = []any{"OPTSVAL", "QVAL"}
+
+func cliInputs() []any {
+	var vs []any
+	for _, f := range cliFiles {
+		var v any
+		if err := json.Unmarshal([]byte(f.data), &v); err != nil {
+			panic(err)
+		}
+		vs = append(vs, normalizeNumbers(v))
+	}
+	return vs
+}
+
+func normalizeNumbers(v any) any {
+	switch v := v.(type) {
+	case map[string]any:
+		for k, e := range v {
+			v[k] = normalizeNumbers(e)
+		}
+		return v
+	case []any:
+		for i, e := range v {
+			v[i] = normalizeNumbers(e)
+		}
+		return v
+	case float64:
+		if v == float64(int(v)) {
+			return int(v)
+		}
+		return v
+	default:
+		return v
+	}
+}
+
+type sliceIter struct {
+	vs []any
+	i  int
+}
+
+func (s *sliceIter) Next() (any, bool) {
+	if s.i >= len(s.vs) {
+		return nil, false
+	}
+	v := s.vs[s.i]
+	s.i++
+	return v, true
+}
+
+// one evaluation of compiled code
+func refRun(code *gojq.Code, input any, vars []any) outcome {
+	var oc outcome
+	it := code.Run(input, vars...)
+	for n := 0; ; n++ {
+		v, ok := it.Next()
+		if !ok {
+			break
+		}
+		if e, ok := v.(error); ok {
+			oc.err = goErrDesc(e)
+			break
+		}
+		oc.outs = append(oc.outs, canonValue(v))
+		if n > 2000 {
+			oc.err = "too-many-outputs"
+			break
+		}
+	}
+	return oc
+}
+
+// refCompileQuery compiles a parsed program directly with the library.  jq semantics for a program without
+// a main expression (empty, or only definitions): identity.  `tovalue` (fq: decode value -> plain JSON) is
+// the identity on the reference side, whose inputs are plain JSON already.
+func refCompileQuery(q *gojq.Query, inputs gojq.Iter, varNames []string) (*gojq.Code, string) {
+	if q.Term == nil && q.Right == nil {
+		q.Term = &gojq.Term{Type: gojq.TermTypeIdentity}
+	}
+	opts := []gojq.CompilerOption{
+		gojq.WithEnvironLoader(func() []string { return theEnviron }),
+		gojq.WithVariables(varNames),
+		gojq.WithFunction("tovalue", 0, 0, func(v any, _ []any) any { return v }),
+		// fq's slurp/repl outside the last position of a pipeline: an error (repl.jq:313-335)
+		gojq.WithFunction("slurp", 0, 1, func(any, []any) any { return fmt.Errorf("slurp must be last in pipeline") }),
+		gojq.WithFunction("repl", 0, 1, func(any, []any) any { return fmt.Errorf("repl must be last in pipeline") }),
+	}
+	if inputs != nil {
+		opts = append(opts, gojq.WithInputIter(inputs))
+	}
+	code, err := gojq.Compile(q, opts...)
+	if err != nil {
+		return nil, "compile:compile"
+	}
+	return code, ""
+}
+
+func refCompile(prog string, inputs gojq.Iter, varNames []string) (*gojq.Code, string) {
+	q, err := gojq.Parse(prog)
+	if err != nil {
+		return nil, "compile:parse"
+	}
+	return refCompileQuery(q, inputs, varNames)
+}
+
+type cliExpect struct {
+	outs       []string
+	errs       int  // number of evaluations that ended in an error
+	compileErr bool // program does not parse/compile
+}
+
+// the program text given to fq: in the modes whose `.` is a decode value it is converted to plain JSON first
+func cliProgText(mode, prog string) string {
+	switch mode {
+	case "f":
+		return "tovalue | " + prog
+	case "s":
+		return "map(tovalue) | " + prog
+	}
+	return prog
+}
+
+// reference main loop (what jq / gojq's cli do with the same inputs)
+func refCLI(mode, prog string) (exp cliExpect, panicMsg string) {
+	msg, panicked := hlib.Catch(func() string {
+		it := &sliceIter{vs: cliInputs()}
+		code, cerr := refCompile(cliProgText(mode, prog), it, cliArgNames)
+		if cerr != "" {
+			exp.compileErr = true
+			return ""
+		}
+		one := func(in any) {
+			oc := refRun(code, in, cliArgValues)
+			exp.outs = append(exp.outs, oc.outs...)
+			if oc.err != "" {
+				exp.errs++
+			}
+		}
+		switch mode {
+		case "n":
+			one(nil)
+		case "s":
+			all := it.vs
+			it.i = len(it.vs)
+			one(append([]any{}, all...))
+		default:
+			for {
+				v, ok := it.Next()
+				if !ok {
+					break
+				}
+				one(v)
+			}
+		}
+		return ""
+	})
+	if panicked {
+		return exp, msg
+	}
+	return exp, ""
+}
+
+// decodeStream splits captured output into JSON values and `error:` lines
+func decodeStream(b []byte) (vals []string, errLines int, junk string) {
+	var js bytes.Buffer
+	for _, l := range strings.Split(string(b), "\n") {
+		if strings.HasPrefix(l, "error:") {
+			errLines++
+			continue
+		}
+		js.WriteString(l)
+		js.WriteByte('\n')
+	}
+	d := json.NewDecoder(&js)
+	d.UseNumber()
+	for {
+		var v any
+		if err := d.Decode(&v); err != nil {
+			if err.Error() != "EOF" {
+				junk = err.Error()
+			}
+			break
+		}
+		vals = append(vals, jsonText(canonNumbers(v)))
+	}
+	return vals, errLines, junk
+}
+
+func cliArgv(mode, prog string) []string {
+	argv := []string{"-c", "-d", "json", "--arg", "opts", "OPTSVAL", "--arg", "q", "QVAL"}
+	switch mode {
+	case "n":
+		argv = append(argv, "-n")
+	case "s":
+		argv = append(argv, "-s")
+	}
+	argv = append(argv, "--", cliProgText(mode, prog))
+	for _, f := range cliFiles {
+		argv = append(argv, f.name)
+	}
+	return argv
+}
+
+func cliVFS() vfs {
+	files := vfs{}
+	for _, f := range cliFiles {
+		files[f.name] = []byte(f.data)
+	}
+	return files
+}
+
+func (rn *runner) semCli(mode, prog string) {
+	op := "sem cli " + mode + " " + hx(prog)
+	rn.o.N++
+	rn.o.Stat("sem_cli", 1)
+	rn.o.Stat("sem_cli_mode_"+mode, 1)
+	exp, pmsg := refCLI(mode, prog)
+	if pmsg != "" {
+		rn.o.Verdict("BADOP", op+" :: reference engine panicked: "+pmsg)
+		return
+	}
+	res := runMain(cliArgv(mode, prog), cliVFS(), nil)
+	detail := func(why string) string {
+		return fmt.Sprintf("%s :: program %s mode %s: %s; reference outs=%v errs=%d compile=%v; fq exit=%d stdout=%q stderr=%q",
+			op, prog, mode, why, exp.outs, exp.errs, exp.compileErr, res.exit, clip(res.stdout), clip(res.stderr))
+	}
+	fail := func(why string) {
+		rn.o.Verdict("PROPFAIL", detail(why))
+	}
+	switch {
+	case res.panic != "":
+		fail("fq panicked: " + res.panic)
+		return
+	case exp.compileErr:
+		rn.o.Stat("sem_cli_compile_error", 1)
+		if res.exit != 3 || len(bytes.TrimSpace(res.stdout)) != 0 {
+			fail("reference rejects the program at compile time, fq does not (exit 3 expected)")
+			return
+		}
+		rn.o.Verdict("OK", op)
+		return
+	}
+	vals, _, junk := decodeStream(res.stdout)
+	wantExit := 0
+	if exp.errs > 0 {
+		wantExit = 5
+	}
+	switch {
+	case junk != "":
+		fail("stdout is not a stream of JSON values: " + junk)
+	case strings.Join(vals, "\n") != strings.Join(exp.outs, "\n"):
+		fail("outputs differ")
+	case res.exit != wantExit:
+		fail(fmt.Sprintf("exit code %d, expected %d", res.exit, wantExit))
+	case exp.errs != strings.Count(string(res.stderr), "error:"):
+		fail(fmt.Sprintf("%d evaluations end in an error but %d error reports on stderr", exp.errs, strings.Count(string(res.stderr), "error:")))
+	default:
+		rn.o.Verdict("OK", op)
+	}
+	oc := outcome{outs: exp.outs}
+	if exp.errs > 0 {
+		oc.err = "runtime"
+	}
+	rn.semAccount("cli", mode+":"+prog, oc)
+}
+
+func clip(b []byte) string {
+	if len(b) > 400 {
+		return string(b[:400]) + "..."
+	}
+	return string(b)
+}
+
+// ---------------------------------------------------------------- sem repl
+
+// independent re-implementation (on the library's AST) of "the last element of the pipeline is a call of
+// slurp/1": follows `|` to the right and `as` bindings into their body (what query.jq:131-144 does on JSON)
+func lastOfPipeline(q *gojq.Query) **gojq.Term {
+	for {
+		if q.Term != nil {
+			t := q.Term
+			if n := len(t.SuffixList); n > 0 {
+				if b := t.SuffixList[n-1].Bind; b != nil {
+					q = b.Body
+					continue
+				}
+				return nil
+			}
+			return &q.Term
+		}
+		if q.Op == gojq.OpPipe {
+			q = q.Right
+			continue
+		}
+		return nil
+	}
+}
+
+// `... | slurp("name")`: returns the name and rewrites the call to identity
+func cutSlurp(q *gojq.Query) (string, bool) {
+	pt := lastOfPipeline(q)
+	if pt == nil {
+		return "", false
+	}
+	t := *pt
+	if t.Type != gojq.TermTypeFunc || t.Func == nil || t.Func.Name != "slurp" || len(t.Func.Args) != 1 {
+		return "", false
+	}
+	a := t.Func.Args[0]
+	if a.Term == nil || a.Term.Type != gojq.TermTypeString || a.Term.Str == nil || a.Term.Str.Queries != nil || len(a.Term.SuffixList) != 0 {
+		return "", false
+	}
+	*pt = &gojq.Term{Type: gojq.TermTypeIdentity}
+	return a.Term.Str.Str, true
+}
+
+const replInputsExpr = `{"a":1,"b":[1,2,3],"c":"x"}, [3,{"a":2},"s",null], 7`
+
+func (rn *runner) semRepl(lines []string) {
+	hs := make([]string, len(lines))
+	for i, l := range lines {
+		hs[i] = hx(l)
+	}
+	op := "sem repl " + strings.Join(hs, ",")
+	rn.o.N++
+	rn.o.Stat("sem_repl", 1)
+	rn.o.Stat("sem_repl_lines", len(lines))
+	// REPL inputs: `fq -n -i 'A, B, C'` -> the three documents as plain JSON values
+	inputs := cliInputs()
+	type lineExp struct {
+		outs       []string
+		errs       int
+		compileErr bool
+	}
+	exps := make([]lineExp, len(lines))
+	slurped := map[string]any{} // name -> array (set by `EXPR | slurp("name")`)
+	var pmsg string
+	for i, l := range lines {
+		var names []string
+		var values []any
+		for k, v := range slurped {
+			names = append(names, "$"+k)
+			values = append(values, v)
+		}
+		msg, panicked := hlib.Catch(func() string {
+			q, err := gojq.Parse(l)
+			if err != nil {
+				exps[i].compileErr = true
+				return ""
+			}
+			slurpName, isSlurp := cutSlurp(q)
+			code, cerr := refCompileQuery(q, nil, names)
+			if cerr != "" {
+				exps[i].compileErr = true
+				return ""
+			}
+			all := []any{}
+			for _, in := range inputs {
+				it := code.Run(in, values...)
+				for n := 0; n < 2000; n++ {
+					v, ok := it.Next()
+					if !ok {
+						break
+					}
+					if _, ok := v.(error); ok {
+						exps[i].errs++
+						break
+					}
+					all = append(all, v)
+					exps[i].outs = append(exps[i].outs, canonValue(v))
+				}
+			}
+			if isSlurp {
+				// the values go to the variable, nothing is displayed; errors are reported per input
+				exps[i].outs = nil
+				slurped[slurpName] = all
+			}
+			return ""
+		})
+		if panicked {
+			pmsg = msg
+		}
+	}
+	if pmsg != "" {
+		rn.o.Verdict("BADOP", op+" :: reference engine panicked: "+pmsg)
+		return
+	}
+	res := runMain([]string{"-n", "-i", "-c", replInputsExpr}, cliVFS(), lines)
+	segs := bytes.Split(res.stdout, []byte("\x00LINE\n"))
+	if res.panic != "" || len(segs) != len(lines)+1 {
+		rn.o.Verdict("PROPFAIL", fmt.Sprintf("%s :: fq -i: panic=%q, %d output segments for %d lines; stdout=%q stderr=%q", op, res.panic, len(segs)-1, len(lines), clip(res.stdout), clip(res.stderr)))
+		return
+	}
+	for i, l := range lines {
+		vals, errLines, junk := decodeStream(segs[i+1])
+		e := exps[i]
+		why := ""
+		switch {
+		case e.compileErr:
+			if len(vals) != 0 {
+				why = "reference rejects the line, fq prints values"
+			}
+		case junk != "":
+			why = "output is not a stream of JSON values: " + junk
+		case strings.Join(vals, "\n") != strings.Join(e.outs, "\n"):
+			why = "outputs differ"
+		case errLines != e.errs:
+			why = fmt.Sprintf("%d evaluations end in an error but %d error lines", e.errs, errLines)
+		}
+		if why != "" {
+			rn.o.Verdict("PROPFAIL", fmt.Sprintf("%s :: line %d %q: %s; reference outs=%v errs=%d; fq segment=%q", op, i, l, why, e.outs, e.errs, clip(segs[i+1])))
+			return
+		}
+		oc := outcome{outs: e.outs}
+		if e.compileErr {
+			oc.err = "compile:"
+		} else if e.errs > 0 {
+			oc.err = "runtime"
+		}
+		rn.semAccount("repl", l, oc)
+	}
+	rn.o.Verdict("OK", op)
+}
+
+// ---------------------------------------------------------------- program generator (runnable programs)
+
+type sgen struct {
+	r      *hlib.Rand
+	vars   []string
+	labels []string
+	funcs  []sfn
+	budget int
+	cli    bool // may use input/inputs, $opts/$q (--arg)
+	noAlt  bool // no `?//` (several evaluations in one run: see assumptions)
+}
+
+type semFlavour int
+
+const (
+	semEv       semFlavour = iota // one evaluation, any construct
+	semCli                        // command line, one evaluation (-n, -s): input/inputs, --arg variables
+	semCliMulti                   // command line, one evaluation per input
+	semRepl                       // REPL line: one evaluation per REPL input, no input/inputs
+)
+
+type sfn struct {
+	name  string
+	arity int
+}
+
+func (g *sgen) n(k int) int      { return g.r.Intn(k) }
+func (g *sgen) chance(p int) bool { return g.r.Intn(100) < p }
+func (g *sgen) pick(ss ...string) string {
+	return ss[g.r.Intn(len(ss))]
+}
+
+func (g *sgen) num() string {
+	g.budget--
+	switch g.n(14) {
+	case 0:
+		return g.pick("0x10", "0b101", "0o17", "0xff", "0x1_0")
+	case 1:
+		return g.pick("1.5", "0.5", "2.25", "1e2", ".5")
+	case 2:
+		return "10"
+	case 3:
+		return g.pick(".a", ".a", ".b[0]", ".b[1]", ".[0]", ".c", ".x", "(.a // 4)")
+	case 4:
+		if len(g.vars) > 0 {
+			return g.vars[g.n(len(g.vars))]
+		}
+		return "3"
+	default:
+		return g.pick("0", "1", "2", "3", "4", "5", "6", "7", "8", "9")
+	}
+}
+
+func (g *sgen) strLit(d int) string {
+	g.budget--
+	switch g.n(8) {
+	case 0:
+		return "`r\\n\"`"
+	case 1:
+		if d > 0 {
+			return `"a\(` + g.q(d-1) + `)b"`
+		}
+		return `"ab"`
+	case 2:
+		if d > 0 {
+			return `@base64 "x\(` + g.expr(d-1) + `)"`
+		}
+		return `"x"`
+	case 3:
+		if d > 0 {
+			return `@json "v=\(` + g.q(d-1) + `)"`
+		}
+		return `"é\n\t"`
+	default:
+		return g.pick(`"a"`, `"b"`, `"x"`, `""`, `"a b"`, `"é"`)
+	}
+}
+
+var arith = []string{"+", "+", "-", "-", "-", "*", "*", "/", "%"}
+var cmps = []string{"==", "!=", "<", "<=", ">", ">="}
+
+func (g *sgen) pattern(d int, bound *[]string) string {
+	fresh := func() string {
+		v := g.pick("$x", "$y", "$z", "$opts", "$q", "$orig_query", "$last", "$slurp", "$_args", "$c", "$err", "$a1")
+		*bound = append(*bound, v)
+		return v
+	}
+	if d <= 0 || g.chance(55) {
+		return fresh()
+	}
+	if g.chance(50) {
+		n := 1 + g.n(2)
+		ps := make([]string, n)
+		for i := range ps {
+			ps[i] = g.pattern(d-1, bound)
+		}
+		return "[" + strings.Join(ps, ", ") + "]"
+	}
+	switch g.n(4) {
+	case 0:
+		return "{" + fresh() + "}"
+	case 1:
+		return `{"a": ` + g.pattern(d-1, bound) + "}"
+	case 2:
+		return `{("a" + ""): ` + g.pattern(d-1, bound) + ", b: " + g.pattern(d-1, bound) + "}"
+	default:
+		return "{a: " + g.pattern(d-1, bound) + "}"
+	}
+}
+
+func (g *sgen) term(d int) string {
+	if d <= 0 || g.budget <= 0 {
+		if g.chance(85) {
+			return g.num()
+		}
+		return g.pick(`"a"`, "null", "true", "false", ".", "[]", "{}")
+	}
+	g.budget--
+	switch g.n(40) {
+	case 0, 1, 2:
+		return "(" + g.q(d-1) + ")"
+	case 3, 4:
+		return "-" + g.term(d-1)
+	case 5:
+		return "[" + g.q(d-1) + "]"
+	case 6:
+		return "{a: " + g.expr(d-1) + `, "b": ` + g.expr(d-1) + " | " + g.expr(d-1) + "}"
+	case 7:
+		return "{(" + g.strLit(d-1) + "): " + g.term(d-1) + ", c: 1}"
+	case 8:
+		s := "if " + g.q(d-1) + " then " + g.q(d-1)
+		if g.chance(30) {
+			s += " elif " + g.q(d-1) + " then " + g.q(d-1)
+		}
+		if g.chance(70) {
+			s += " else " + g.q(d-1)
+		}
+		return s + " end"
+	case 9, 10:
+		s := "try " + g.term(d-1)
+		if g.chance(65) {
+			s += " catch " + g.term(d-1)
+		}
+		return s
+	case 11:
+		return g.term(d-1) + "?"
+	case 12, 13:
+		v := g.pick("$i", "$x", "$opts", "$last")
+		g.vars = append(g.vars, v)
+		s := "reduce " + g.stream(d-1) + " as " + v + " (" + g.q(d-1) + "; " + g.q(d-1) + ")"
+		g.vars = g.vars[:len(g.vars)-1]
+		return s
+	case 14:
+		v := g.pick("$i", "$x", "$slurp")
+		g.vars = append(g.vars, v)
+		s := "foreach " + g.stream(d-1) + " as " + v + " (" + g.q(d-1) + "; " + g.q(d-1)
+		if g.chance(50) {
+			s += "; " + g.q(d-1)
+		}
+		g.vars = g.vars[:len(g.vars)-1]
+		return s + ")"
+	case 15:
+		if len(g.labels) > 0 {
+			return "break " + g.labels[g.n(len(g.labels))]
+		}
+		return "empty"
+	case 16, 17:
+		if len(g.funcs) > 0 {
+			f := g.funcs[g.n(len(g.funcs))]
+			if f.arity == 0 {
+				return f.name
+			}
+			as := make([]string, f.arity)
+			for i := range as {
+				as[i] = g.q(d - 1)
+			}
+			return f.name + "(" + strings.Join(as, "; ") + ")"
+		}
+		return "length"
+	case 18:
+		return "error(" + g.strLit(0) + ")"
+	case 19:
+		return g.pick("empty", "error", "error(null)", "error({a: 1})")
+	case 20:
+		return "limit(" + g.pick("0", "1", "2", "3") + "; " + g.q(d-1) + ")"
+	case 21:
+		return "first(" + g.q(d-1) + ")"
+	case 22:
+		return "[" + g.stream(d-1) + "] | " + g.pick("length", "add", "reverse", "map(. + 1)", "map(select(. > 1))", "first", "last", "tojson", "sort", "min", "max")
+	case 23:
+		return g.strLit(d)
+	case 24:
+		return g.pick("length", "not", "tostring", "tojson", "type", "keys?", "floor?", ".[]?", "..", "path(..)", "[paths]", "to_entries?")
+	case 25:
+		if g.cli {
+			return g.pick("(input | tovalue)", "(inputs | tovalue)", "[inputs | tovalue]", "first(inputs | tovalue)", "limit(1; inputs | tovalue)", "[limit(2; inputs) | tovalue]",
+				"(input | tovalue | length)", "[., (input | tovalue)]", "[inputs] | length", "(input | tojson)")
+		}
+		return g.num()
+	case 26:
+		if g.cli {
+			return g.pick("$ENV.VERIF_C11", "env.VERIF_C11", "$opts", "$q", "($ENV | has(\"NO_COLOR\"))", "$__loc__", "$__prog_args", "$_args", "$ENV.CONFIG_DIR")
+		}
+		return g.pick("$__loc__", "$ENV.VERIF_C11", "env.VERIF_C11", g.num())
+	case 27:
+		return g.pick(".a", ".b", ".b[1:]", ".b[:2]", ".[1]?", ".c", ".a?", `."a"`, `.["a"]?`, ".b[]", ".[]?")
+	case 28:
+		return g.pick(".a", ".b[0]", ".c") + " " + g.pick("|=", "+=", "-=", "*=", "//=", "=") + " " + g.term(d-1)
+	default:
+		return g.num()
+	}
+}
+
+func (g *sgen) stream(d int) string {
+	switch g.n(6) {
+	case 0:
+		return "range(" + g.pick("0", "1", "2", "3", "4") + ")"
+	case 1:
+		return "range(1; " + g.pick("3", "4", "5") + ")"
+	case 2:
+		return "(" + g.num() + ", " + g.num() + ", " + g.num() + ")"
+	case 3:
+		return ".b[]?"
+	case 4:
+		if g.cli {
+			return "(inputs | tovalue)"
+		}
+		return "(1, 2)"
+	default:
+		return "(" + g.q(d) + ")"
+	}
+}
+
+// operator chains WITHOUT parentheses: precedence and associativity are the parser's business
+func (g *sgen) expr(d int) string {
+	s := g.term(d)
+	for g.budget > 0 && g.chance(55) {
+		var op string
+		switch g.n(12) {
+		case 0:
+			op = "//"
+		case 1:
+			op = g.pick("and", "or")
+		case 2:
+			op = cmps[g.n(len(cmps))]
+		default:
+			op = arith[g.n(len(arith))]
+		}
+		s += " " + op + " " + g.term(d-1)
+		g.budget--
+	}
+	return s
+}
+
+var defNames = []string{"f", "g", "h", "_cli_display", "_repl_display", "inputs", "input", "_cli_eval_on_expr_error", "_repl_on_expr_error",
+	"display", "error", "_query_query", "map", "eval", "_eval_query_rewrite", "d", "tojson", "repl", "slurp"}
+
+func (g *sgen) q(d int) string {
+	if d <= 0 || g.budget <= 0 {
+		return g.expr(0)
+	}
+	g.budget--
+	switch g.n(20) {
+	case 0, 1, 2:
+		return g.q(d-1) + " | " + g.q(d-1)
+	case 3, 4, 5:
+		return g.q(d-1) + ", " + g.q(d-1)
+	case 6, 7, 8:
+		var bound []string
+		p := g.pattern(2, &bound)
+		for !g.noAlt && g.chance(20) {
+			p += " ?// " + g.pattern(1, &bound)
+		}
+		src := g.term(d - 1)
+		if g.chance(40) {
+			src = g.pick(".", ".b", "[1, 2]", "{a: 3, b: 4}", "[[1, 2], {a: 5}]")
+		}
+		n := len(g.vars)
+		g.vars = append(g.vars, bound...)
+		body := g.q(d - 1)
+		g.vars = g.vars[:n]
+		return src + " as " + p + " | " + body
+	case 9:
+		l := g.pick("$out", "$l", "$opts")
+		g.labels = append(g.labels, l)
+		body := g.q(d - 1)
+		g.labels = g.labels[:len(g.labels)-1]
+		return "label " + l + " | " + body
+	case 10, 11:
+		name := defNames[g.n(len(defNames))]
+		var s string
+		var f sfn
+		switch g.n(4) {
+		case 0:
+			f = sfn{name, 1}
+			g.funcs = append(g.funcs, sfn{"a", 0})
+			body := g.q(d - 1)
+			g.funcs = g.funcs[:len(g.funcs)-1]
+			s = "def " + name + "(a): " + body + "; "
+		case 1:
+			f = sfn{name, 1}
+			g.vars = append(g.vars, "$p")
+			body := g.q(d - 1)
+			g.vars = g.vars[:len(g.vars)-1]
+			s = "def " + name + "($p): " + body + "; "
+		default:
+			f = sfn{name, 0}
+			s = "def " + name + ": " + g.q(d-1) + "; "
+		}
+		g.funcs = append(g.funcs, f)
+		rest := g.q(d - 1)
+		g.funcs = g.funcs[:len(g.funcs)-1]
+		return s + rest
+	default:
+		return g.expr(d)
+	}
+}
+
+func semProgram(r *hlib.Rand, fl semFlavour) string {
+	g := &sgen{r: r, budget: 10 + r.Intn(30), cli: fl == semCli || fl == semCliMulti, noAlt: fl == semCliMulti || fl == semRepl}
+	return g.q(1 + g.n(4))
+}
+
+var evInputs = []string{`{"a":1,"b":[1,2,3],"c":"x"}`, `[3,{"a":2},"s",null]`, `7`, `null`, `{"a":{"a":5},"b":[[1],[2]]}`}
+
+// fixed semantic programs: the cases named in the property statement
+var semFixed = []string{
+	`1, 2`, `10 - 3 - 2`, `2 * 3 + 4`, `2 + 3 * 4`, `100 / 10 / 2`, `7 % 4 % 2`, `null // false // 3`, `1 // 2 // 3`, `-1`, `-.a`, `- 1 - -2`, `.a?`, `.x?.y?`,
+	`true or false and false`, `false and true or true`, `1 < 2 == true`, `(1, 2) + (10, 20)`, `1, 2 | . * 2`, `1 | 2, 3 | . + 1`,
+	`. as [$x, {b: $y}] ?// $z | [$x, $y, $z]`, `[[1, {"b": 2}]] | .[] as [$x, {b: $y}] ?// $z | [$x, $y, $z]`, `reduce range(5) as $x (0; . + $x)`,
+	`foreach range(4) as $x (0; . + $x; [$x, .])`, `label $out | 1, 2, break $out, 3`, `label $out | foreach (1, 2, 3) as $i (0; . + $i; if . > 2 then ., break $out else . end)`,
+	`def f: 1; f + 1`, `def f(g; $x): g + $x; f(10; 2)`, `def f: def g: 3; g * 2; f`, `def _cli_display: "captured"; def inputs: "captured"; def _cli_eval_on_expr_error: "captured"; 1, 2`,
+	`def display: "captured"; def _repl_display: "captured"; [1]`, `def error(x): "shadowed"; error("e")`, `1 as $opts | 2 as $q | [$opts, $q]`, `. as $orig_query | 1 as $last | 2 as $slurp | [$last, $slurp]`,
+	`"a\(1 + 2)b\("c" + "\(3)")"`, `@base64 "x\(1)y"`, `@json "v=\([1, "a"])"`, "`raw \\n \"q\"` | length", `"é\n\t\"\\" | length`, `0x1f, 0o17, 0b101, 0x1_000`,
+	`$__loc__`, `$ENV.VERIF_C11`, `env.VERIF_C11`, `error("x")`, `1, error("x"), 2`, `error`, `error(null)`, `error({a: 1})`, `empty`, `1, empty, 2`, `limit(2; 1, 2, 3)`, `first(1, 2)`,
+	`try error("x") catch .`, `try error("x")`, `(try error("x") catch .) + "y"`, `try (1, error("x"), 2) catch "c"`, `[.[]?]`, `.. | numbers`, `[paths]`,
+	`{a: 1, "b": 2, ("c"): 3, "d\(1)": 4}`, `{a: 1 | 2}`, `{a: (1, 2)}`, `1 as $x | 2 as $y | $x - $y - 1`, `[1, 2 as $x | 3, $x]`, `if . then 1 elif 2 then 3 else 4 end`,
+	`.a = 1 | .b |= 2`, `.a += 1 | .a`, `.x //= 3 | .x`, `[.[] | . as $v | try ($v + 1) catch "e"]`, `$opts`, `$q`, `$_args`, `$nope`, `nope`, `1 +`, `)`, ``, `.`,
+	`def f: 1;`, `import "nonexistent" as x; 1`, `include "nonexistent"; 1`, `1 as $x | 2 | . + $x | -. - 1`, `-(1, 2)`, `[-(1, 2) | -.]`, `[1, 2] | -.[0] - .[1]`, `"\(1, 2)-\(3, 4)"`,
+}
+
+var semFixedCli = []string{
+	`input`, `inputs`, `[inputs]`, `[., input]`, `first(inputs)`, `limit(2; inputs)`, `[limit(1; inputs)] | length`, `input, input, input, input`,
+	`., (input | length)`, `reduce inputs as $x (0; . + 1)`, `[inputs | type]`, `. as $x | input as $y | [$x, $y] | length`, `$opts, $q`, `[$opts, $q, $ENV.VERIF_C11]`,
+	`def inputs: "mine"; inputs`, `def input: "mine"; [input, input]`, `error("x"), 1`, `1, error({"k": 1})`, `.a`, `.b[0]`, `.[0]`, `length`, `tojson`,
+}
+
+func (rn *runner) semAll(r *hlib.Rand, nEv, nCli, nRepl int) {
+	if nEv >= 0 {
+		rn.semEvAll(r, nEv)
+	}
+	if nCli >= 0 {
+		rn.semCliAll(r, nCli)
+	}
+	if nRepl >= 0 {
+		rn.semReplAll(r, nRepl)
+	}
+}
+
+func (rn *runner) semEvAll(r *hlib.Rand, nEv int) {
+	var evs []evCase
+	for _, p := range semFixed {
+		for _, in := range evInputs[:3] {
+			evs = append(evs, evCase{p, in})
+		}
+	}
+	for i := 0; i < nEv; i++ {
+		evs = append(evs, evCase{semProgram(r.Fork(), semEv), evInputs[r.Intn(len(evInputs))]})
+	}
+	// a slice of full-grammar programs too: mostly compile errors, but the error class must agree
+	for i := 0; i < nEv/10; i++ {
+		p := genProgram(r.Fork(), progFull, 6+r.Intn(20))
+		if strings.Contains(p, "halt") { // halt_error cannot be caught by the batch evaluation
+			continue
+		}
+		evs = append(evs, evCase{p, evInputs[r.Intn(len(evInputs))]})
+	}
+	chunk(evs, 200, rn.semEv)
+}
+
+func (rn *runner) semCliAll(r *hlib.Rand, nCli int) {
+	modes := []string{"n", "f", "s"}
+	for _, p := range append(append([]string{}, semFixedCli...), semFixed...) {
+		for _, m := range modes {
+			if m != "n" && r.Intn(100) < 60 {
+				continue
+			}
+			if m == "f" && strings.Contains(p, "?//") {
+				continue // library: stale variables of non-matching alternatives across iterations (see assumptions)
+			}
+			rn.semCli(m, p)
+		}
+	}
+	for i := 0; i < nCli; i++ {
+		m := modes[r.Intn(3)]
+		fl := semCli
+		if m == "f" {
+			fl = semCliMulti
+		}
+		rn.semCli(m, semProgram(r.Fork(), fl))
+	}
+}
+
+func (rn *runner) semReplAll(r *hlib.Rand, nRepl int) {
+	var fixedLines []string
+	for i, p := range semFixed {
+		if p == "" || strings.Contains(p, "$opts") || strings.Contains(p, "$q") || strings.Contains(p, "?//") {
+			continue
+		}
+		fixedLines = append(fixedLines, p)
+		if i%7 == 0 {
+			fixedLines = append(fixedLines, p+` | slurp("v`+fmt.Sprint(i)+`")`, `$v`+fmt.Sprint(i), `[$v`+fmt.Sprint(i)+`[]] | length`)
+		}
+	}
+	chunk(fixedLines, 12, rn.semRepl)
+	for i := 0; i < nRepl; i++ {
+		var lines []string
+		for j, k := 0, 4+r.Intn(8); j < k; j++ {
+			p := semProgram(r.Fork(), semRepl)
+			if strings.TrimSpace(p) == "" {
+				continue
+			}
+			if r.Intn(100) < 20 {
+				name := fmt.Sprintf("s%d", j)
+				lines = append(lines, p+` | slurp("`+name+`")`, "$"+name+" | length", "$"+name)
+			} else {
+				lines = append(lines, p)
+			}
+		}
+		rn.semRepl(lines)
+	}
+}
+
+func (rn *runner) semReplay(f []string, line string) {
+	bad := func() { rn.o.Verdict("BADOP", line+" :: unparsable sem replay line") }
+	switch {
+	case f[0] == "ev" && len(f) == 3:
+		p, err1 := unhx(f[1])
+		in, err2 := unhx(f[2])
+		if err1 != nil || err2 != nil {
+			bad()
+			return
+		}
+		rn.semEv([]evCase{{p, in}})
+	case f[0] == "cli" && len(f) == 3:
+		p, err := unhx(f[2])
+		if err != nil {
+			bad()
+			return
+		}
+		rn.semCli(f[1], p)
+	case f[0] == "repl" && len(f) == 2:
+		var lines []string
+		for _, h := range strings.Split(f[1], ",") {
+			l, err := unhx(h)
+			if err != nil {
+				bad()
+				return
+			}
+			lines = append(lines, l)
+		}
+		rn.semRepl(lines)
+	default:
+		bad()
+	}
+}
+
+// developer timing probe
+func devTiming() {
+	t0 := time.Now()
+	for i := 0; i < 6; i++ {
+		t1 := time.Now()
+		fqDirect("1 + 2 * 3", nil)
+		fmt.Println("  fqDirect:", time.Since(t1))
+	}
+	fmt.Println("fqDirect x6:", time.Since(t0))
+	t0 = time.Now()
+	ps := make([]string, 200)
+	ins := make([]any, 200)
+	for i := range ps {
+		ps[i] = "1 + 2 * 3"
+	}
+	fqThroughEval(ps, ins)
+	fmt.Println("throughEval x200:", time.Since(t0))
+	t0 = time.Now()
+	for i := 0; i < 5; i++ {
+		runMain(cliArgv("n", "1+1"), cliVFS(), nil)
+	}
+	fmt.Println("runMain x5:", time.Since(t0))
+	t0 = time.Now()
+	runMain([]string{"-n", "-i", "-c", replInputsExpr}, cliVFS(), []string{"1", "2", "3", "4", "5", "6", "7", "8", "9", "10"})
+	fmt.Println("repl 10 lines:", time.Since(t0))
+}
